@@ -1149,6 +1149,8 @@ class Evaluator:
         if op is ast.Add:
             if _is_seq(a) and _is_seq(b):
                 return atom(("concat", a, b))
+            if T.is_pure_const(a) and T.is_pure_const(b) and isinstance(T.const_py(a), str) and isinstance(T.const_py(b), str):
+                return const(T.const_py(a) + T.const_py(b))   # "tpr" + "_N"
             return a + b
         if op is ast.Sub:
             return a - b
@@ -1256,7 +1258,8 @@ class Evaluator:
             return const(res != neg)
         if bb is not None and bb[0] == "mcall" and bb[2] == "keys" and not bb[3] and not bb[4]:
             b = bb[1]  # `k in d.keys()` is `k in d`
-        if bb is not None and bb[0] in ("tuple", "list", "set") and 1 <= len(bb[1]) <= 6 and all(T.is_pure_const(x) for x in bb[1]):
+        if bb is not None and bb[0] in ("tuple", "list", "set") and 1 <= len(bb[1]) <= 6 and (all(T.is_pure_const(x) for x in bb[1]) or (a.is_const() and all(
+                (x.single_atom() or ("",))[0] not in ("tuple", "list", "dict", "set", "starred") for x in bb[1]))):
             # membership in a literal collection of constants is a disjunction of equalities (it then distributes over gated phis)
             t = T.mk_or([T.mk_cmp("==", a, x) for x in bb[1]])
             return T.mk_not(t) if neg else t
@@ -1283,6 +1286,8 @@ class Evaluator:
         return atom(("tuple", tuple(self.ev(x, st) for x in e.elts)))
 
     def ev_List(self, e, st):
+        if len(e.elts) == 1 and isinstance(e.elts[0], ast.Starred):
+            return self._lib_call("list", [self.ev(e.elts[0].value, st)], {}, st, e)   # [*x] is list(x)
         return atom(("list", tuple(self.ev(x, st) for x in e.elts)))
 
     def ev_Set(self, e, st):
@@ -1686,6 +1691,22 @@ class Evaluator:
             if la is not None and la[0] in ("tuple", "list") and 1 <= len(la[1]) <= 6:
                 # map(f, (a, b)) consumed here: [f(a), f(b)]
                 return atom(("list", tuple(self._call_value(args[0], [x], {}, st, node) for x in la[1])))
+        if d == "isinstance" and len(args) == 2 and not kwargs:
+            ta = args[1].single_atom()
+            if ta is not None and ta[0] == "tuple" and 1 <= len(ta[1]) <= 6:
+                # isinstance(x, (A, B)) is isinstance(x, A) or isinstance(x, B)
+                return T.mk_or([self._lib_call("isinstance", [args[0], t_], {}, st, node) for t_ in ta[1]])
+        if d == "sum" and len(args) == 1 and not kwargs:
+            la = args[0].single_atom()
+            if la is not None and la[0] in ("tuple", "list") and 1 <= len(la[1]) <= 8 and not any((x.single_atom() or ("",))[0] in ("starred", "list", "tuple") for x in la[1]):
+                out = const(0)
+                for x in la[1]:
+                    out = out + x   # sum([a, b]) is a + b
+                return out
+        if d == "list" and len(args) == 1 and not kwargs:
+            la = args[0].single_atom()
+            if la is not None and la[0] == "list" and len(la[1]) == 1 and (la[1][0].single_atom() or ("",))[0] == "starred":
+                return self._lib_call("list", [la[1][0].single_atom()[1]], {}, st, node)
         if d in ("any", "all") and len(args) == 1 and not kwargs:
             la = args[0].single_atom()
             if la is not None and la[0] == "flist" and all(T._boolish(v_) for _c, v_ in la[1]):
